@@ -580,9 +580,67 @@ func computeFacts(fn *ssa.Function) *factTable {
 
 // addCondFacts records cond==truth and, for !x, x==!truth.
 func addCondFacts(m map[Fact]bool, cond ssa.Value, truth bool) {
+	addCondFactsDepth(m, cond, truth, 0)
+}
+
+func addCondFactsDepth(m map[Fact]bool, cond ssa.Value, truth bool, d int) {
 	m[Fact{cond, truth}] = true
+	if d > 6 {
+		return
+	}
 	if u, ok := cond.(*ssa.UnOp); ok && u.Op == token.NOT {
-		addCondFacts(m, u.X, !truth)
+		addCondFactsDepth(m, u.X, !truth, d+1)
+	}
+	// a boolean that was computed by short-circuit evaluation and kept in a
+	// variable (`outOfRange := a || b; if outOfRange …`): the phi [true, …, b]
+	// being false means every operand was false; [false, …, b] being true means
+	// every operand was true
+	ph, ok := cond.(*ssa.Phi)
+	if !ok {
+		return
+	}
+	var last ssa.Value
+	var lastPred *ssa.BasicBlock
+	for i, e := range ph.Edges {
+		c, isC := e.(*ssa.Const)
+		if isC && c.Value != nil && c.Value.Kind() == constant.Bool {
+			if constant.BoolVal(c.Value) == truth {
+				return // this edge alone makes the phi `truth`: nothing follows about the operands
+			}
+			continue
+		}
+		if last != nil {
+			return // more than one computed edge: not the short-circuit shape
+		}
+		last, lastPred = e, ph.Block().Preds[i]
+	}
+	if last == nil {
+		return
+	}
+	// the phi has the value `truth` only via the computed edge
+	addCondFactsDepth(m, last, truth, d+1)
+	// and the operands before it: walking up from the block that computed the last operand, each
+	// single predecessor ending in an If that sent us on because its condition was != the
+	// short-circuit constant
+	b := lastPred
+	for hop := 0; hop < 6 && b != nil && len(b.Preds) == 1; hop++ {
+		p := b.Preds[0]
+		iff, isIf := p.Instrs[len(p.Instrs)-1].(*ssa.If)
+		if !isIf || p.Succs[0] == p.Succs[1] {
+			break
+		}
+		// the other successor of p must lead to the phi's block with the constant edge
+		other := p.Succs[0]
+		took := false
+		if other == b {
+			other = p.Succs[1]
+			took = true
+		}
+		if other != ph.Block() {
+			break
+		}
+		addCondFactsDepth(m, iff.Cond, took, d+1)
+		b = p
 	}
 }
 
